@@ -275,6 +275,32 @@ def r_json_fields(ctx):
             ctx.violation("R-JSON-FIELDS", cname, "every reported field is dumped", f"{cname}: {bad}", first_line(proj, cname))
         else:
             ctx.ok("R-JSON-FIELDS", f"{cname}: no excluded field, no custom serializer")
+    # 'task and cost function definitions survive a JSON round trip', writer side: what is dumped for them is pydantic's own
+    # dump of the declared fields - no custom serializer anywhere in their MRO (a key it adds is refused on re-import by
+    # extra='forbid', a key it drops takes its default), no excluded field
+    m_rt = 0
+    for base in ("Task", "Function"):
+        for c in proj.subclasses(base, strict=False):
+            m_rt += 1
+            bad = []
+            for k in c.mro:
+                for st in k.node.body:
+                    if isinstance(st, ast.FunctionDef) and any(
+                            any(w in ast.unparse(d) for w in ("model_serializer", "field_serializer", "computed_field")) for d in st.decorator_list):
+                        bad.append(f"{k.name}.{st.name} (@{ast.unparse(st.decorator_list[0])[:40]})")
+                    if isinstance(st, ast.FunctionDef) and st.name in ("model_dump", "model_dump_json", "dict", "json"):
+                        bad.append(f"{k.name}.{st.name} overridden")
+                    if isinstance(st, ast.AnnAssign) and isinstance(st.value, ast.Call):
+                        for kw_ in st.value.keywords:
+                            if kw_.arg == "exclude" and not (isinstance(kw_.value, ast.Constant) and kw_.value.value in (False, None)):
+                                bad.append(f"{k.name}.{ast.unparse(st.target)}: excluded from the dump")
+            if bad:
+                ctx.violation("R-JSON-FIELDS", c.name, "the dump of a task / cost function is the dump of its declared fields",
+                              f"{c.name}: {sorted(set(bad))}: the exported document is no longer the declared fields, so it does not "
+                              f"validate back (extra='forbid') or comes back with defaults", first_line(proj, c.name))
+            else:
+                ctx.ok("R-JSON-FIELDS", f"{c.name}: default dump of the declared fields (no serializer, no excluded field in its MRO)")
+    ctx.floor("R-JSON-FIELDS", "task / cost function classes", m_rt, 8)
     # the object type registry maps each key to the class of that name and covers every task class
     m = proj.module("problem")
     reg = m.globals_assigned.get("_object_types")
@@ -573,3 +599,62 @@ def r_presence_test(ctx):
 
 
 C17_RULES = [r_gantt, r_gantt_buffer, r_bar_is_start_to_end, r_presence_test]
+
+
+def r_names_resolve(ctx, modules=None, rule="R-NAMES-RESOLVE"):
+    """a function can only succeed if every free name it reads is bound: a parameter or local, a name of an enclosing function, a
+    name bound at module level (import, def, class, assignment - in any branch), or a builtin.  Decided with the compiler's own
+    symbol tables (`symtable`), per function, for the modules given (all when None)."""
+    import builtins
+    import symtable
+    proj = ctx.project
+    n = 0
+    unbound = 0
+    for m in proj.modules.values():
+        if modules is not None and m.short not in modules:
+            continue
+        src = open(m.path).read()
+        top = symtable.symtable(src, m.path, "exec")
+        star = [st for st in m.tree.body if isinstance(st, ast.ImportFrom) and any(a.name == "*" for a in st.names)]
+        if star:
+            ctx.note(f"{rule}: {m.short}: `from ... import *` at module level, free names not decided for this module")
+            continue
+        bound = {s.get_name() for s in top.get_symbols() if s.is_assigned() or s.is_imported() or s.is_namespace()}
+        # names bound by `global x` + assignment inside functions
+        def walk(tab, path):
+            nonlocal n
+            for child in tab.get_children():
+                walk(child, path + [child.get_name()])
+            if tab.get_type() != "function":
+                return
+            for s in tab.get_symbols():
+                if s.is_global() and s.is_assigned():
+                    bound.add(s.get_name())
+        walk(top, [])
+
+        def check(tab, path):
+            nonlocal n, unbound
+            for child in tab.get_children():
+                check(child, path + [child.get_name()])
+            if tab.get_type() not in ("function", "class"):
+                return
+            for s in tab.get_symbols():
+                if not s.is_referenced() or not s.is_global() or s.is_assigned():
+                    continue
+                n += 1
+                nm = s.get_name()
+                if nm in bound or hasattr(builtins, nm):
+                    continue
+                lines = [x.lineno for x in ast.walk(m.tree) if isinstance(x, ast.Name) and x.id == nm and isinstance(x.ctx, ast.Load)]
+                unbound += 1
+                ctx.violation(rule, f"{m.short}.{'.'.join(path)}", f"free name `{nm}` is bound nowhere",
+                              f"`{nm}` is read in {'.'.join(path)} but no import, definition or assignment binds it in "
+                              f"{m.short}.py: the first call that reaches it raises NameError", f"{proj.relpath(m.path)}:{lines[0] if lines else tab.get_lineno()}")
+        check(top, [])
+    ctx.floor(rule, "free (module-level or builtin) names read inside functions", n, 20)
+    if not unbound:
+        ctx.ok(rule, f"{n} free names read inside functions are bound at module level or builtin")
+
+
+C17_RULES.append(lambda ctx: r_names_resolve(ctx, modules=("plotter", "solution")))
+C16_RULES.append(lambda ctx: r_names_resolve(ctx, modules=("excel_io", "solution", "base", "problem")))
